@@ -14,7 +14,7 @@ ElemsQuick == {El("i1", "result"), El("i1", "error"), El("i2", "result"), El("i3
 ElemsFull == [id : {"i1", "i2", "i3", "i4", "s1", "s2", "i9", "null"}, body : {"result", "error"}] \cup {El("i2", "both"), El("i3", "neither"), El("btrue", "result"), El("f1_0", "result")}
 ObjDocs == {[k |-> "object", els |-> <<El(i, b)>>] : i \in {"null", "i1"}, b \in {"error", "result", "both"}}
            \cup {[k |-> x, els |-> NoEls] : x \in {"notjson", "scalar"}}
-CallSeqs3 == {<<"i1", "i2", "i3">>, <<"i1", "notif", "i2">>, <<"i1">>}
+CallSeqs3 == {<<"i1", "i2", "i3">>, <<"i1", "notif", "i2">>, <<"i1">>, <<"notif", "i1", "i2">>}
 CallSeqs4 == CallSeqs3 \cup {<<"i1", "i2", "i3", "i4">>, <<"i1", "i2", "notif", "i3", "i4">>}
 InitC08(E, maxlen, CS) ==
     \/ \E st \in BOOLEAN, d \in SingleDocs : InitWith("single", st, <<"i1">>, d)
